@@ -168,6 +168,81 @@ func H02str() {
 	h02Check(s, 1)
 }
 
+// H02esc: continuation lines of a double-quoted string that begin (after 0..3 blanks) with an
+// escape sequence followed by blanks: only the blanks before the first non-blank of the line are
+// subject to stripping, the text an escape yields and everything after it is content.
+func H02esc() {
+	pre := h02Pick("", "  ", "     ", "\t", "/**/ ")
+	lead := h02Pick("", " ", "  ", "   ", "\t")
+	esc := string(h02Body(1, "nt\"\\x"))
+	after := string(h02Body(param("m"), " \tx"))
+	head := h02Pick("a", "", "a ")
+	s := pre + "k \"" + head + "\n" + lead + "\\" + esc + after + "\";"
+	note(s)
+	h02Check(s, 1)
+}
+
+// H02sq: single-quoted and unquoted arguments and comments are taken verbatim / skipped verbatim:
+// `k 'BODY';`, `k BODY;`, `k /*BODY*/ w;`, `k "a" + 'BODY';` with BODY over the bytes that matter
+// to any reader (CR, LF, blank, tab, backslash, both quotes, a letter).
+func H02sq() {
+	body := string(h02Body(param("m"), "\r\n \t\\\"'x"))
+	var s string
+	switch symChoice(4) {
+	case 0:
+		s = "k '" + body + "'" + h02Pick(";", " ;", "{}")
+	case 1:
+		s = "k " + body + ";"
+	case 2:
+		s = "k /*" + body + "*/ w;"
+	case 3:
+		s = "k \"a\" + '" + body + "';"
+	}
+	note(s)
+	h02Check(s, 1)
+}
+
+// H02plus: one statement whose argument is made of up to three pieces (double-quoted, single-
+// quoted, unquoted, or a quoted string that is exactly "+") with a `+` operator, nothing, or a
+// blank-less `+` between them: what is concatenated, what is a second argument (an error), and
+// that only an unquoted + is the operator.
+func H02plus() {
+	piece := func() string {
+		// the content of a quoted piece is a symbolic byte: the solver finds the `+` case
+		switch symChoice(4) {
+		case 0:
+			return "\"" + string(h02Body(1, "+s ;")) + "\""
+		case 1:
+			return "'" + string(h02Body(1, "+t ;")) + "'"
+		case 2:
+			return "\"\""
+		}
+		return "w"
+	}
+	full := param("full") == 1
+	op := func() string {
+		if full {
+			return h02Pick(" + ", " ", "+", " +", "+ ", "\n+\n")
+		}
+		return h02Pick(" + ", " ", "+", "\n+\n")
+	}
+	s := "k "
+	if full {
+		s = h02Pick("k ", "pattern ")
+	}
+	s += piece() + op() + piece()
+	if symBool() {
+		s += op() + piece()
+	}
+	if full {
+		s += h02Pick(";", " ;", " { x; }", "")
+	} else {
+		s += h02Pick(";", "")
+	}
+	note(s)
+	h02Check(s, 1)
+}
+
 // H02cat: token sequences with every boundary spelled with or without a blank wherever the
 // boundary is already determined - the look-ahead / push-back logic of `+` concatenation.
 func H02cat() {
